@@ -55,6 +55,10 @@ pub enum Op {
     ImportRegAdjacent { of: usize },
     /// import a registration frame with a fresh id below all others
     ImportRegOlder,
+    /// import a registration frame that the store refuses (meta at the nesting limit), under a
+    /// fresh id or (`over`) under the id of a stored frame: nothing changes, in particular not
+    /// the set of usable contexts
+    ImportRegRefused { over: Option<usize> },
     /// import a frame whose topic contains NUL (must be rejected whole)
     ImportNul,
     /// import a frame that must be refused (NUL topic) under the id of the stored frame `rank`:
@@ -580,6 +584,21 @@ impl Exec {
                     return;
                 }
                 self.import_new(id, "xs.context", ZERO_CONTEXT, "forever");
+            }
+            Op::ImportRegRefused { over } => {
+                let id = match over {
+                    Some(r) => self.rank_id(*r).expect("menu: rank exists"),
+                    None => self.older_id(),
+                };
+                let mut meta = Value::Null;
+                for _ in 0..127 {
+                    meta = Value::Array(vec![meta]);
+                }
+                let f = Frame::builder("xs.context", ZERO_CONTEXT).id(id).meta(meta).build();
+                match self.store().insert_frame(&f) {
+                    Ok(()) => self.add(finding("import.deep", &["C12"], "a registration frame with a meta nested 127 levels was accepted".into())),
+                    Err(_) => self.check_no_trace(&before_dump, "refused import of a registration frame", &["C07", "C05"]),
+                }
             }
             Op::ImportRegOlder => {
                 let id = self.older_id();
